@@ -37,7 +37,11 @@ Inductive cb :=
        (on_best after : cb)                             (* EvalCallback; [evals] = oracle mean rewards still to come;
                                                            [done_at] = ghost log (n_calls, num_timesteps) of evaluations *)
 | Checkpoint (b : base) (freq : Z) (saved : list (Z * Z))   (* CheckpointCallback; ghost log (n_calls, num_timesteps) of saves *)
-| MaxEp (b : base) (total neps : Z).                    (* StopTrainingOnMaxEpisodes; total = max_episodes * n_envs *)
+| MaxEp (b : base) (total neps : Z)                     (* StopTrainingOnMaxEpisodes; total = max_episodes * n_envs *)
+| Conv (b : base) (stop_at : Z) (log : list entry)      (* ConvertCallback(function): the function sees every step; returns n_calls <> stop_at *)
+| Thresh (b : base) (thr : Z)                           (* StopTrainingOnRewardThreshold *)
+| NoImp (b : base) (max_no min_evals : Z) (last_best : option Z) (no_imp : Z).
+                                                        (* StopTrainingOnNoModelImprovement *)
 
 Definition stamp_of (b : base) : Z := match b_loc b with Some (s, _) => s | None => -1 end.
 Definition ndones_of (b : base) : Z := match b_loc b with Some (_, d) => d | None => 0 end.
@@ -52,12 +56,20 @@ Definition log_entry (k : Z) (b : base) : entry := mkE k (b_calls b) (b_nt b) (s
 Definition better (mean : Z) (best : option Z) : bool :=
   match best with None => true | Some b => b <? mean end.   (* best_mean_reward starts at -inf *)
 
+(* comparisons with -inf = None *)
+Definition gt_opt (a b : option Z) : bool :=
+  match a, b with Some x, Some y => y <? x | Some _, None => true | None, _ => false end.
+Definition lt_thr (pb : option Z) (thr : Z) : bool := match pb with None => true | Some v => v <? thr end.
+
 Definition everyn_fires (nt last n : Z) : bool := n <=? nt - last.
 Definition checkpoint_fires (calls freq : Z) : bool := calls mod freq =? 0.
 Definition eval_fires (calls freq : Z) : bool := (0 <? freq) && (calls mod freq =? 0).
 
-(* dispatch e c = (c after the call, value returned)  -  non-step events return true *)
-Fixpoint dispatch (e : event) (c : cb) {struct c} : cb * bool :=
+(* dispatchp pb e c = (c after the call, value returned)  -  non-step events return true.
+   pb = self.parent.best_mean_reward as the node would read it (None = -inf): the children of an EvalCallback have it as parent,
+   a CallbackList hands its own parent to its children, EveryNTimesteps is the parent of its own child (no such attribute:
+   StopTrainingOnRewardThreshold / NoModelImprovement below it are not supported, there the model passes the value through). *)
+Fixpoint dispatchp (pb : option Z) (e : event) (c : cb) {struct c} : cb * bool :=
   match c with
   | Nop => (Nop, true)
   | Rec b stop log =>
@@ -74,7 +86,7 @@ Fixpoint dispatch (e : event) (c : cb) {struct c} : cb * bool :=
       let fix go (l : list cb) : list cb * bool :=
         match l with
         | [] => ([], true)
-        | x :: r => let xr := dispatch e x in let rr := go r in (fst xr :: fst rr, snd xr && snd rr)
+        | x :: r => let xr := dispatchp pb e x in let rr := go r in (fst xr :: fst rr, snd xr && snd rr)
         end in
       let lr := go l in
       match e with
@@ -85,32 +97,32 @@ Fixpoint dispatch (e : event) (c : cb) {struct c} : cb * bool :=
       end
   | EveryN b n last fired ch =>
       match e with
-      | TS nt => (EveryN (base_ts nt b) n last fired (fst (dispatch e ch)), true)
-      | UL s d => (EveryN (base_ul s d b) n last fired (fst (dispatch e ch)), true)
+      | TS nt => (EveryN (base_ts nt b) n last fired (fst (dispatchp pb e ch)), true)
+      | UL s d => (EveryN (base_ul s d b) n last fired (fst (dispatchp pb e ch)), true)
       | Step nt =>
           let b' := base_step nt b in
           if everyn_fires nt last n then
-            let cr := dispatch e ch in (EveryN b' n nt (fired ++ [nt]) (fst cr), snd cr)
+            let cr := dispatchp pb e ch in (EveryN b' n nt (fired ++ [nt]) (fst cr), snd cr)
           else (EveryN b' n last fired ch, true)
       | _ => (c, true)            (* rollout start/end, training end are NOT forwarded by EventCallback *)
       end
   | EvalC b freq best evals done_at ob af =>
       match e with
-      | TS nt => (EvalC (base_ts nt b) freq best evals done_at ob (fst (dispatch e af)), true)
-      | UL s d => (EvalC (base_ul s d b) freq best evals done_at ob (fst (dispatch e af)), true)
+      | TS nt => (EvalC (base_ts nt b) freq best evals done_at ob (fst (dispatchp pb e af)), true)
+      | UL s d => (EvalC (base_ul s d b) freq best evals done_at ob (fst (dispatchp pb e af)), true)
       | Step nt =>
           let b' := base_step nt b in
           if eval_fires (b_calls b') freq then
             let mean := hd 0 evals in
             let done' := done_at ++ [(b_calls b', nt)] in
             if better mean best then
-              let obr := dispatch e ob in
+              let obr := dispatchp (Some mean) e ob in
               if snd obr then
-                let afr := dispatch e af in
+                let afr := dispatchp (Some mean) e af in
                 (EvalC b' freq (Some mean) (tl evals) done' (fst obr) (fst afr), snd afr)
               else (EvalC b' freq (Some mean) (tl evals) done' (fst obr) af, false)
             else
-              let afr := dispatch e af in
+              let afr := dispatchp best e af in
               (EvalC b' freq best (tl evals) done' ob (fst afr), snd afr)
           else (EvalC b' freq best evals done_at ob af, true)
       | _ => (c, true)
@@ -134,7 +146,37 @@ Fixpoint dispatch (e : event) (c : cb) {struct c} : cb * bool :=
           (MaxEp b' total neps', neps' <? total)
       | _ => (c, true)
       end
+  | Conv b stop log =>
+      match e with
+      | TS nt => (Conv (base_ts nt b) stop log, true)
+      | UL s d => (Conv (base_ul s d b) stop log, true)
+      | Step nt => let b' := base_step nt b in
+                   (Conv b' stop (log ++ [log_entry 2 b']), negb (b_calls b' =? stop))
+      | _ => (c, true)
+      end
+  | Thresh b thr =>
+      match e with
+      | TS nt => (Thresh (base_ts nt b) thr, true)
+      | UL s d => (Thresh (base_ul s d b) thr, true)
+      | Step nt => (Thresh (base_step nt b) thr, lt_thr pb thr)
+      | _ => (c, true)
+      end
+  | NoImp b mx me lb ni =>
+      match e with
+      | TS nt => (NoImp (base_ts nt b) mx me lb ni, true)
+      | UL s d => (NoImp (base_ul s d b) mx me lb ni, true)
+      | Step nt =>
+          let b' := base_step nt b in
+          if me <? b_calls b' then
+            if gt_opt pb lb then (NoImp b' mx me pb 0, true)
+            else (NoImp b' mx me pb (ni + 1), negb (mx <? ni + 1))
+          else (NoImp b' mx me pb ni, true)
+      | _ => (c, true)
+      end
   end.
+
+(* the algorithm calls the root: no parent *)
+Notation dispatch := (dispatchp None).
 
 (* delivering a sequence of events *)
 Definition run (evs : list event) (c : cb) : cb := fold_left (fun c e => fst (dispatch e c)) evs c.
@@ -230,6 +272,9 @@ Fixpoint observe (c : cb) : list (Z * Z * Z * list entry) :=
        match best with Some m => mkE 6 0 m 1 | None => mkE 6 0 0 0 end :: pairs_to_entries 6 done_at) :: observe ob ++ observe af
   | Checkpoint b _ saved => [(4, b_calls b, b_nt b, pairs_to_entries 7 saved)]
   | MaxEp b _ neps => [(5, b_calls b, b_nt b, [mkE 8 0 0 neps])]
+  | Conv b _ log => [(6, b_calls b, b_nt b, log)]
+  | Thresh b _ => [(7, b_calls b, b_nt b, [])]
+  | NoImp b _ _ lb ni => [(8, b_calls b, b_nt b, [match lb with Some v => mkE 12 1 v ni | None => mkE 12 0 0 ni end])]
   end.
 
 Definition show_entry (e : entry) : Z * Z * Z * Z := (e_kind e, e_calls e, e_nt e, e_stamp e).
@@ -255,3 +300,6 @@ Definition everyn (n : Z) (c : cb) : cb := EveryN base0 n 0 [] c.
 Definition eval_ (freq : Z) (evals : list Z) (ob af : cb) : cb := EvalC base0 freq None evals [] ob af.
 Definition checkpoint (freq : Z) : cb := Checkpoint base0 freq [].
 Definition maxep (m ne : Z) : cb := MaxEp base0 (m * ne) 0.
+Definition conv (stop : Z) : cb := Conv base0 stop [].
+Definition thresh (thr : Z) : cb := Thresh base0 thr.
+Definition noimp (mx me : Z) : cb := NoImp base0 mx me None 0.
